@@ -84,6 +84,22 @@ GENEXPR = [
          extern={"a.coords.dtype": "Ok dt", "a.shape[ax]": "Ok n"}),
 ]
 
+# the right-hand side of the single assignment `<target> = ...` of a function, translated by py2v's
+# expression translator (calls -> other generated fragments; extern for the array-valued leaves).
+# Extern keys listed under `optional` may be absent: dropping a term (e.g. `x.nnz`) then changes the generated
+# definition (the theorem about it breaks, the campaign runs against the changed model) instead of failing closed.
+ASSIGN = [
+    # GCXS re-compression / transpose / reshape: the dtype of the new indices AND of the new indptr
+    dict(name="g_transpose_dtype", file=GCONVERT, func="_transpose", target="coords_dtype",
+         params=["xdt", "mcs", "nnz"], calls={"get_out_dtype": "g_get_out_dtype"},
+         extern={"x.indices": "Ok xdt", "max(new_compressed_shape)": "Ok mcs", "x.nnz": "Ok nnz"},
+         optional=["x.nnz", "max(new_compressed_shape)"]),
+    dict(name="g_1d_reshape_dtype", file=GCONVERT, func="_1d_reshape", target="coords_dtype",
+         params=["xdt", "mcs", "nnz"], calls={"get_out_dtype": "g_get_out_dtype"},
+         extern={"x.indices": "Ok xdt", "max(new_compressed_shape)": "Ok mcs", "x.nnz": "Ok nnz"},
+         optional=["x.nnz", "max(new_compressed_shape)"]),
+]
+
 # stmt: exact text (ast.unparse) of the statement holding the expression.
 # what: 'value' (right-hand side of an Assign / the single argument of an Expr call), 'aug' (AugAssign:
 #       target op= value), 'cmp' (Assign whose value is a comparison  lhs <cmp> rhs  -> list bool)
@@ -188,6 +204,13 @@ FACT = [
     ("s_gcxs_stack_needed", GCOMMON, "stack",
      ["needed = max(total_nnz, indptr.shape[0] - 1)", "indptr = np.concatenate(ptr_list)"],
      "Definition s_gcxs_stack_needed (total_nnz plen : Z) : Z := Z.max total_nnz (plen - 1)."),
+    # _transpose: new coordinates (computed in intp) and the cumulated row counts are stored in coords_dtype
+    ("s_transpose_store", GCONVERT, "_transpose",
+     ["new_coords = np.empty((2, x.nnz), dtype=coords_dtype)",
+      "indptr = np.empty(row_size + 1, dtype=coords_dtype)", "indptr[0] = 0",
+      "np.cumsum(np.bincount(new_coords[0], minlength=row_size), out=indptr[1:])",
+      "indices = new_coords[1]", "new_coords = new_coords[:, order]"],
+     "Definition s_transpose_store (d : dty) (vals : list Z) : tarr := assign_into d (mkT (DInt i64) vals)."),
     # GCXS -> COO: row numbers are written into an array of indptr's dtype
     ("s_uncompress_dtype", GCONVERT, "uncompress_dimension",
      ["uncompressed = np.empty(indptr[-1], dtype=indptr.dtype)",
